@@ -1325,7 +1325,7 @@ struct const_subarray : array_types<T, D, ElementPtr, Layout> {
 
  private:
 	constexpr auto strided_aux_(difference_type diff) const {
-		typename types::layout_t const new_layout{this->layout().sub(), this->layout().stride()*diff, this->layout().offset(), this->layout().nelems()};
+		typename types::layout_t const new_layout{this->layout().sub(), this->layout().stride()*diff, this->layout().offset()*diff, this->layout().nelems()};
 		return const_subarray(new_layout, types::base_);
 	}
 
@@ -2970,7 +2970,7 @@ struct const_subarray<T, 1, ElementPtr, Layout>  // NOLINT(fuchsia-multiple-inhe
 
  private:
 	constexpr auto strided_aux_(difference_type diff) const {
-		auto const new_layout = typename types::layout_t{this->layout().sub(), this->layout().stride()*diff, this->layout().offset(), this->layout().nelems()};
+		auto const new_layout = typename types::layout_t{this->layout().sub(), this->layout().stride()*diff, this->layout().offset()*diff, this->layout().nelems()};
 		return subarray<T, 1, ElementPtr, Layout>(new_layout, types::base_);
 	}
 
